@@ -263,27 +263,22 @@ def report(ctx, cases, results, verdicts, rejected, finals):
         if "crash" in r:
             ctx.machinery("harness crashed on case %d: %s" % (r["id"], r["crash"]))
         if r["hang"]:
-            ctx.violation("fetch does not terminate", "make_nuwiki idle with nothing in flight: %s" % r["error"], rep)
-            nviol += 1
+            nviol += ctx.violation("fetch does not terminate", "make_nuwiki idle with nothing in flight: %s" % r["error"], rep)
             continue
         if r["status"] == "readfail":
-            ctx.violation("archive cannot be read back", r["error"][:500], rep)
-            nviol += 1
+            nviol += ctx.violation("archive cannot be read back", r["error"][:500], rep)
         if r["status"] == "failed" and "not all items processed" not in r["error"]:
-            ctx.violation("fetch failed: %s" % r["error"].split(":")[0], r["error"], rep)
-            nviol += 1
+            nviol += ctx.violation("fetch failed: %s" % r["error"].split(":")[0], r["error"], rep)
             continue
         for f in finals.get(r["id"], []):
-            ctx.violation(key_of_failure(f), "%s (%s) %s; book=%s limits=%s/%s images=%s schedule=%s" % (
+            nviol += ctx.violation(key_of_failure(f), "%s (%s) %s; book=%s limits=%s/%s images=%s schedule=%s" % (
                 f[0], f[1], f[2], [[a["title"], a["rev"]] for a in case["book"]], case["cfg"]["reqlimit"],
                 case["cfg"]["reslimit"], case["cfg"]["fetch_images"], case["cfg"]["policy"]), dict(rep, failure=f))
-            nviol += 1
         if r["id"] in rejected:
             l, ev, diag = rejected[r["id"]]
             what = "event %d of the run is not a step Fetcher.tla allows: %s — %s" % (l, json.dumps(ev)[:700], diag)
             key = "trace rejected: %s %s -> %s [%s]" % (ev.get("k", ev.get("t")), ev.get("t"), ev.get("to", ""), diag.split(" (")[0][:80])
-            ctx.violation(key, what, dict(rep, rejected_at=l, event=ev, diagnosis=diag))
-            nviol += 1
+            nviol += ctx.violation(key, what, dict(rep, rejected_at=l, event=ev, diagnosis=diag))
             continue
         v = verdicts.get(r["id"])
         if v is None:
@@ -292,11 +287,9 @@ def report(ctx, cases, results, verdicts, rejected, finals):
             ctx.machinery("the reference model's own archive falls short of Expected on a recorded behaviour: %r (case %d)"
                           % (v["modelfailures"], r["id"]))
         if v["leftovers"]:
-            ctx.violation("not all items processed (todo list non-empty at join)", r["error"], rep)
-            nviol += 1
+            nviol += ctx.violation("not all items processed (todo list non-empty at join)", r["error"], rep)
         if v["doublework"]:
-            ctx.violation("guarded request issued twice (imageinfo / download / description page)", "NoDoubleWork", rep)
-            nviol += 1
+            nviol += ctx.violation("guarded request issued twice (imageinfo / download / description page)", "NoDoubleWork", rep)
     return nviol
 
 
